@@ -407,6 +407,8 @@ mod lsp {
         .iter()
         .filter_map(|f| Url::parse(&f.uri).ok())
         .map(|uri| self.convert_url_to_module_reference_readonly(&state.0.heap, &uri))
+        // A file the server has never seen resolves to ROOT, which holds the builtin classes.
+        .filter(|mod_ref| samlang_heap::ModuleReference::ROOT.ne(mod_ref))
         .collect::<Vec<_>>();
       state.0.remove(&remove_set);
       self.publish_diagnostics(&mut state).await;
